@@ -57,6 +57,9 @@ CHECKS["C11"] = ("abstract interpretation of AssignmentTool's composition and se
 CHECKS["C20"] = ("writer/reader pairing analysis (PAIRIO) over molgri/io.py and the run_grid Snakefile rule (front end parses the rule into ASTs), constant/keyword check of the xvg reader against the property's header grammar",
     "Structural clauses: each artefact is saved with the matching saver from the direct getter result and loaded with the matching loader; xvg reader constants (skiprows=13, comment '@', no header row, legends s0..s9 in order, names passed on, single column by name, csv index_col=0). Value-exactness of numpy/scipy/pandas serialisation is trusted.", "6 C20")
 
+CHECKS["C14"] = ("label-flow analysis (FLOW) across getters, saved files, Snakefile rule outputs/inputs (rules.X.output.Y resolved by the front end), loaders and SQRA keyword arguments; config-key-to-grid-role tracing at every FullGrid construction; transpose parity and order/pairing rules on DecompositionTool; inherited FOLD/TRUTH rules",
+    "Wiring (borders->S, distances->h, volumes->V; config keys -> grid roles), one assembly routine for S and h, left eigenvectors via one transpose, descending sort applied to eigenvalues and eigenvector columns alike, decomposition rule wiring, folded rotation block (F1). ARPACK convergence/accuracy is not decided.", "6 C14")
+
 NOT_APPLICABLE = {
     "C06": "Cartesian Voronoi cell geometry is produced by qhull and floating-point predicates (polygon vertex ordering, F2); no static abstract domain in reach separates the failing coordinate configurations; the one structural clause is too thin to claim the property (DESIGN.md section 6, C06).",
     "C07": "distinctness/separation/hemisphere membership of computed coordinates are numerical facts; the row-count and unit-norm clauses are already run-time assertions, so a static restatement would only test the presence of those asserts (DESIGN.md section 6, C07).",
